@@ -197,6 +197,22 @@ def wideAssign (c : ClassD) (w : String) (e : Expr) : Bool :=
   (match e with | .get _ => true | _ => false) ||
   decide (32 ≤ max (match c.port? w with | some p => p.width | none => 32) (sw c e))
 
+def isSkipS : Stmt → Bool
+  | .skip => true
+  | _ => false
+
+/-- after a guarded `case k if g:` nothing can match any more: every later arm is a DIFFERENT integer constant and there is no
+    `case _` (the condition under which /repo edb114b still accepts a guard: `k: if (g) body` is then exact) -/
+def laterDistinct (k : Int) : Stmt → Bool
+  | .arm v _ _ rest => (match v with | .const k' => k' != k | _ => false) && laterDistinct k rest
+  | .dflt b => isSkipS b
+  | _ => false
+
+def guardOK (c : ClassD) (v : Expr) (g : Option Expr) (rest : Stmt) : Bool :=
+  match g with
+  | none => true
+  | some ge => okC c ge && (match v with | .const k => laterDistinct k rest | _ => false)
+
 /-- statement fragment; `q` = the body is a `clock()` (true: `prepare` and state assignment allowed) or a `propagate()`
     (false: `put` allowed) -/
 def okSg (q : Bool) (c : ClassD) : Stmt → Bool
@@ -208,7 +224,7 @@ def okSg (q : Bool) (c : ClassD) : Stmt → Bool
   | .prep w e => isOutPort c w && q && okV c e && wideAssign c w e
   | .ife cnd t e => okC c cnd && okSg q c t && okSg q c e
   | .mtch subj ch => okV c subj && exact c subj && okSg q c ch
-  | .arm v g body rest => g.isNone && okV c v && exact c v && okSg q c body && okSg q c rest
+  | .arm v g body rest => guardOK c v g rest && okV c v && exact c v && okSg q c body && okSg q c rest
   | .dflt body => okSg q c body     -- no `case _` = `dflt skip`: emitted as `default:;` (null statement) since /repo b2612d8
 
 def okS (c : ClassD) (s : Stmt) : Bool := okSg c.isSeq c s
